@@ -41,7 +41,7 @@ def plan(tier, seed):
 
 
 NAMES = ["alpha", "beta", "gamma", "delta", "eps", "zeta", "eta", "theta", "pipeline", "x-y", "Über"]
-ABSENT = ["ghost", "phantom", "missing_plugin"]
+ABSENT = ["ghost", "phantom", "missing_plugin", "logging"]  # logging is a built-in section, not an installed plugin
 
 
 def gen_case(rnd, spec):
